@@ -53,6 +53,9 @@ pub struct IoSpec {
     pub stdout_errno: i32,
     pub stdout_short_writes: Option<(u64, usize)>,
     pub stdout_eintr_every: Option<u32>,
+    /// Benign: forward jumps of the monotonic clock (seed).
+    #[serde(default)]
+    pub clock_jumps: Option<u64>,
 }
 
 impl IoSpec {
@@ -216,6 +219,9 @@ pub struct IoRec {
     /// Failed writes to stdout by the thread whose write failed first.
     #[serde(default)]
     pub stdout_failed_writes_first_thread: u64,
+    /// Forward jumps of the monotonic clock that were injected.
+    #[serde(default)]
+    pub clock_jumps: u64,
 }
 
 #[derive(Serialize, Deserialize, Clone, Debug)]
@@ -554,5 +560,6 @@ pub fn io_plan(spec: &ExecSpec, input_id: Option<(u64, u64)>) -> IoPlan {
         stdout_errno: spec.io.stdout_errno,
         stdout_short_writes: spec.io.stdout_short_writes,
         stdout_eintr_every: spec.io.stdout_eintr_every,
+        clock_jumps: spec.io.clock_jumps,
     }
 }
